@@ -9,6 +9,7 @@ import (
 	"math/rand"
 	"net"
 	"sync"
+	"sync/atomic"
 	"time"
 
 	reuse "github.com/libp2p/go-reuseport"
@@ -65,6 +66,9 @@ type PFCPConn struct {
 
 	hbReset     chan struct{}
 	hbCtxCancel context.CancelFunc
+
+	// set by the first Shutdown; the triggers (release, read timeout, heartbeat failure, stop) may coincide
+	shutdownStarted atomic.Bool
 
 	pendingReqs sync.Map
 }
@@ -231,6 +235,10 @@ func (pConn *PFCPConn) Serve() {
 
 // Shutdown stops connection backing PFCPConn.
 func (pConn *PFCPConn) Shutdown() {
+	if !pConn.shutdownStarted.CompareAndSwap(false, true) {
+		return
+	}
+
 	close(pConn.shutdown)
 
 	if pConn.hbCtxCancel != nil {
